@@ -2847,3 +2847,98 @@ func c09r21(rc *core.RC) {
 	}
 	rc.OK("decoder/window-loops", token.NoPos, "%d counting loops over the stream window without a refill, each bounded below Stream.length", n)
 }
+
+// ---- C09.R22 a container decoder counts its own level before it looks at the input ----
+
+// The struct, map, slice, array and interface decoders refuse a document nested deeper than maxDecodeNestingDepth:
+// each Decode / DecodeStream / DecodePath method that raises its depth parameter does so, and tests the limit, as
+// the first two statements of its body. An exit in front of the count (the empty object, null) lets the stream
+// method accept a document at the limit that the buffer method of the same type refuses. Obligation, for every such
+// method: `depth++` is the first statement and the second is the test against the limit that leaves with an error.
+func c09r22(rc *core.RC) {
+	p := rc.P
+	n := 0
+	for _, fd := range p.Funcs("decoder") {
+		if fd.Body == nil || fd.Recv == nil {
+			continue
+		}
+		switch fd.Name.Name {
+		case "Decode", "DecodeStream", "DecodePath":
+		default:
+			continue
+		}
+		info := p.Info(fd)
+		var inc *ast.IncDecStmt
+		ast.Inspect(fd.Body, func(m ast.Node) bool {
+			if _, isLit := m.(*ast.FuncLit); isLit {
+				return false
+			}
+			if x, ok := m.(*ast.IncDecStmt); ok && x.Tok == token.INC && inc == nil {
+				if o := core.ObjOf(info, x.X); o != nil && isParamOf(info, fd, o) {
+					if b, isB := o.Type().Underlying().(*types.Basic); isB && b.Kind() == types.Int64 {
+						inc = x
+					}
+				}
+			}
+			return true
+		})
+		if inc == nil {
+			continue
+		}
+		n++
+		rc.Touch(p.FuncName(fd))
+		key := p.FuncName(fd) + "/level-counted-first"
+		// in front of the count only plain assignments (buf := ctx.Buf): nothing that can leave
+		first := false
+		at := -1
+		for i, st := range fd.Body.List {
+			if st == ast.Stmt(inc) {
+				first, at = true, i
+				break
+			}
+			if _, isAs := st.(*ast.AssignStmt); !isAs {
+				break
+			}
+		}
+		tested := false
+		if first && len(fd.Body.List) > at+1 {
+			if ifs, ok := fd.Body.List[at+1].(*ast.IfStmt); ok && len(ifs.Body.List) > 0 {
+				mentions := false
+				ast.Inspect(ifs.Cond, func(q ast.Node) bool {
+					if id, isID := q.(*ast.Ident); isID && info.Uses[id] == core.ObjOf(info, inc.X) {
+						mentions = true
+					}
+					return true
+				})
+				if r, isRet := ifs.Body.List[len(ifs.Body.List)-1].(*ast.ReturnStmt); isRet && mentions && core.ReturnIsError(info, r) {
+					tested = true
+				}
+			}
+		}
+		switch {
+		case first && tested:
+			rc.OK(key, inc.Pos(), "the level is counted and tested before anything else")
+		case !first:
+			rc.Bad(key, inc.Pos(), "the level is counted behind other statements of %s: an exit in front of it (the empty object, null) is taken without the test against the nesting limit, so this method accepts a document at the limit that its twin of the other mode refuses", p.FuncName(fd))
+		default:
+			rc.Bad(key, inc.Pos(), "the statement behind the count is not the test against the nesting limit that leaves with an error")
+		}
+	}
+	if n < 10 {
+		rc.Unknown("decoder/methods-that-count-their-level", token.NoPos, "found %d Decode / DecodeStream / DecodePath methods that raise their depth parameter, fewer than the 10 confirmed by hand", n)
+	}
+}
+
+func isParamOf(info *types.Info, fd *ast.FuncDecl, o types.Object) bool {
+	if fd.Type.Params == nil {
+		return false
+	}
+	for _, fl := range fd.Type.Params.List {
+		for _, nm := range fl.Names {
+			if info.Defs[nm] == o {
+				return true
+			}
+		}
+	}
+	return false
+}
